@@ -516,4 +516,400 @@ theorem tstep_swapper_keep (h : tstep cfg tid sh th = some (sh', th')) (hp : pro
     exact Or.inl rfl
   · exact Or.inr (Or.inr ⟨r, tstep_results_mono h _ hs⟩)
 
+@[simp] theorem applyCont_pc_ne_discard (th : Thread) (k i k') :
+    (applyCont th k).pc ≠ .discard i k' := by
+  cases k <;> simp [applyCont]
+
+/-! ## Runs without `close` -/
+
+/-- the thread neither runs nor will run a `close` op -/
+def Thread.noClose (th : Thread) : Prop := Op.close ∉ th.prog ∧ th.pc.kind ≠ some 2
+
+theorem finish_prog_sub (th : Thread) (r : Res) : ∀ op ∈ (finish th r).prog, op ∈ th.prog := by
+  unfold finish; split <;> simp_all
+
+theorem applyCont_prog_sub (th : Thread) (k : Cont) : ∀ op ∈ (applyCont th k).prog, op ∈ th.prog := by
+  cases k <;> simp [applyCont] <;> exact finish_prog_sub th _
+
+theorem failPut_prog_sub (th : Thread) (i k r) : ∀ op ∈ (failPut th i k r).prog, op ∈ th.prog := by
+  cases k <;> simp [failPut] <;> exact finish_prog_sub { th with resp := _ } _
+
+theorem applyCont_kind_ne_two (th : Thread) (k : Cont) : (applyCont th k).pc.kind ≠ some 2 := by
+  cases k <;> simp [applyCont]
+
+theorem tstep_prog_sub (h : tstep cfg tid sh th = some (sh', th')) : ∀ op ∈ th'.prog, op ∈ th.prog := by
+  tstep_cases th h <;>
+    first
+    | exact fun _ h => h
+    | exact finish_prog_sub _ _
+    | exact applyCont_prog_sub _ _
+    | exact failPut_prog_sub _ _ _ _
+
+theorem tstep_noClose (h : tstep cfg tid sh th = some (sh', th')) (hn : th.noClose) :
+    th'.noClose ∧ sh'.poolRef = sh.poolRef := by
+  refine ⟨⟨fun hc => hn.1 (tstep_prog_sub h _ hc), ?_⟩, ?_⟩
+  · have h2 := hn.2
+    have h1 := hn.1
+    tstep_cases th h <;> simp [applyCont_kind_ne_two] at h1 h2 ⊢ <;> first | exact h2 | exact (Cont.kind_lt _).ne
+  · have h2 := hn.2
+    have h1 := hn.1
+    tstep_cases th h <;> simp at h1 h2 ⊢
+
+/-- with `block=True`, as long as `self.pool` is not `None` and the "queue full" branch is not
+taken, a step neither creates nor destroys a slot -/
+theorem tstep_slots_eq (h : tstep cfg tid sh th = some (sh', th')) (hb : cfg.block = true)
+    (hp : sh.poolRef ≠ none) (hn : th.noClose)
+    (h1 : ∀ i k, th.pc ≠ .fullClose i k ∧ th.pc ≠ .warnLoad i k ∧ th.pc ≠ .discard i k) :
+    sh'.queue.length + th'.slots = sh.queue.length + th.slots ∧ ∀ i k, th'.pc ≠ .discard i k := by
+  have h2 := hn.2
+  tstep_cases th h <;> simp_all [Thread.slots] <;> grind
+
+/-! ## Lease discipline -/
+
+/-- `disc held p`: in program `p`, started while the thread's latest streaming response may
+(`held`) still hold a connection, every streaming request is released before the next request and
+before the end, and there is no `close` -/
+def disc : Bool → List Op → Bool
+  | held, [] => !held
+  | held, .req _ _ st :: rest => !held && disc st rest
+  | _, .release :: rest => disc false rest
+  | _, .close :: _ => false
+
+theorem disc_mono {p : List Op} (h : disc true p = true) : disc false p = true := by
+  cases p with
+  | nil => simp [disc] at h
+  | cons op rest => cases op <;> simp_all [disc]
+
+theorem disc_no_close {held : Bool} {p : List Op} (h : disc held p = true) : Op.close ∉ p := by
+  induction p generalizing held with
+  | nil => simp
+  | cons op rest ih =>
+    cases op with
+    | req f l st => simp [disc] at h; simpa using ih h.2
+    | release => simp [disc] at h; simpa using ih h
+    | close => simp [disc] at h
+
+def Cont.stream : Cont → Bool
+  | .retry _ _ st => st
+  | _ => false
+
+/-- the `preload_content=False` flag of the request a program counter is in -/
+def Pc.stream : Pc → Bool
+  | .getCheck _ _ st | .getLoad _ _ st | .getQ _ _ st | .send _ _ _ st | .recv _ _ _ _ st => st
+  | .putCheck _ k | .putLoad _ k | .putQ _ k | .fullClose _ k | .warnLoad _ k | .discard _ k => k.stream
+  | _ => false
+
+@[simp] theorem Pc.stream_idle : Pc.idle.stream = false := rfl
+@[simp] theorem Pc.stream_getCheck {f l s} : (Pc.getCheck f l s).stream = s := rfl
+@[simp] theorem Pc.stream_getLoad {f l s} : (Pc.getLoad f l s).stream = s := rfl
+@[simp] theorem Pc.stream_getQ {f l s} : (Pc.getQ f l s).stream = s := rfl
+@[simp] theorem Pc.stream_send {c f l s} : (Pc.send c f l s).stream = s := rfl
+@[simp] theorem Pc.stream_recv {c t f l s} : (Pc.recv c t f l s).stream = s := rfl
+@[simp] theorem Pc.stream_putCheck {i k} : (Pc.putCheck i k).stream = k.stream := rfl
+@[simp] theorem Pc.stream_putLoad {i k} : (Pc.putLoad i k).stream = k.stream := rfl
+@[simp] theorem Pc.stream_putQ {i k} : (Pc.putQ i k).stream = k.stream := rfl
+@[simp] theorem Pc.stream_fullClose {i k} : (Pc.fullClose i k).stream = k.stream := rfl
+@[simp] theorem Pc.stream_warnLoad {i k} : (Pc.warnLoad i k).stream = k.stream := rfl
+@[simp] theorem Pc.stream_discard {i k} : (Pc.discard i k).stream = k.stream := rfl
+@[simp] theorem Pc.stream_closeCheck : Pc.closeCheck.stream = false := rfl
+@[simp] theorem Pc.stream_closeSwap : Pc.closeSwap.stream = false := rfl
+@[simp] theorem Pc.stream_drain : Pc.drain.stream = false := rfl
+@[simp] theorem Pc.stream_drainClose {x} : (Pc.drainClose x).stream = false := rfl
+@[simp] theorem Cont.stream_rel : Cont.rel.stream = false := rfl
+@[simp] theorem Cont.stream_fin {r} : (Cont.fin r).stream = false := rfl
+@[simp] theorem Cont.stream_retry {f l s} : (Cont.retry f l s).stream = s := rfl
+
+/-- the per-thread discipline invariant -/
+def Disc (th : Thread) : Prop :=
+  th.leaked = [] ∧ th.pc.kind ≠ some 2 ∧
+  (th.pc = .idle → disc th.resp.isSome th.prog = true) ∧
+  (th.pc ≠ .idle → th.resp = none ∧ ∃ op rest, th.prog = op :: rest ∧ disc th.pc.stream rest = true)
+
+theorem finish_disc_iff {prog pc resp leaked results sent} {r : Res} {op : Op} :
+    Disc (finish ⟨op :: prog, pc, resp, leaked, results, sent⟩ r) ↔
+      leaked = [] ∧ disc resp.isSome prog = true := by
+  simp [finish, Disc]
+
+theorem applyCont_disc_iff {prog pc leaked results sent} {k : Cont} {op : Op} :
+    Disc (applyCont ⟨op :: prog, pc, none, leaked, results, sent⟩ k) ↔
+      leaked = [] ∧ disc k.stream prog = true := by
+  cases k with
+  | fin r => simp [applyCont, finish_disc_iff]
+  | rel => simp [applyCont, finish_disc_iff]
+  | retry f l st =>
+    simp only [applyCont, Disc]
+    constructor
+    · rintro ⟨h1, -, -, h2⟩
+      obtain ⟨-, op', rest', he, hd⟩ := h2 (by simp)
+      cases he
+      exact ⟨h1, hd⟩
+    · rintro ⟨h1, h2⟩
+      exact ⟨h1, by simp, by simp, fun _ => ⟨trivial, op, prog, rfl, h2⟩⟩
+
+theorem disc_mk_iff {prog pc resp leaked results sent} {op : Op} (hpc : pc ≠ .idle) :
+    Disc ⟨op :: prog, pc, resp, leaked, results, sent⟩ ↔
+      leaked = [] ∧ pc.kind ≠ some 2 ∧ resp = none ∧ disc pc.stream prog = true := by
+  simp only [Disc]
+  constructor
+  · rintro ⟨h1, h2, -, h3⟩
+    obtain ⟨h4, op', rest', he, hd⟩ := h3 hpc
+    cases he
+    exact ⟨h1, h2, h4, hd⟩
+  · rintro ⟨h1, h2, h3, h4⟩
+    exact ⟨h1, h2, fun h => absurd h hpc, fun _ => ⟨h3, op, prog, rfl, h4⟩⟩
+
+theorem disc_false_of {b : Bool} {p : List Op} (h : disc b p = true) : disc false p = true := by
+  cases b
+  · exact h
+  · exact disc_mono h
+
+theorem tstep_disc (h : tstep cfg tid sh th = some (sh', th')) (hp : sh.poolRef ≠ none)
+    (hf : cfg.block = true → ∀ i k, th.pc ≠ .fullClose i k) (hd : Disc th) : Disc th' := by
+  obtain ⟨hl, hk, hidle, hrun⟩ := hd
+  tstep_cases th h <;> simp at hl hk hidle hrun hp hf ⊢ <;>
+    (try obtain ⟨rfl, op, rest, rfl, hd'⟩ := hrun) <;>
+    (try simp only [disc, Bool.and_eq_true, Bool.not_eq_true', Option.isSome_eq_false_iff,
+      Option.isNone_iff_eq_none] at hidle) <;>
+    simp_all [finish_disc_iff, applyCont_disc_iff, disc_mk_iff] <;>
+    exact disc_false_of ‹_›
+
+/-! ## When is a thread not enabled -/
+
+theorem tstep_none (h : tstep cfg tid sh th = none) :
+    th.done = true ∨
+      (∃ f l st, th.pc = .getQ f l st) ∧ sh.queue = [] ∧ cfg.block = true ∧ cfg.timeout = false := by
+  rcases th with ⟨prog, pc, resp, leaked, results, sent⟩
+  cases pc <;> simp only [tstep, tstepPc] at h <;> (repeat' split at h) <;>
+    simp_all [Thread.done]
+
+theorem Disc.slots_done {th : Thread} (hd : Disc th) (h : th.done = true) : th.slots = 0 := by
+  rcases th with ⟨prog, pc, resp, leaked, results, sent⟩
+  obtain ⟨hl, -, hidle, -⟩ := hd
+  cases pc <;> cases prog <;> simp [Thread.done] at h
+  simp at hl
+  have := hidle rfl
+  simp [disc] at this
+  simp [Thread.slots, hl, this]
+
+theorem Disc.slots_getQ {th : Thread} (hd : Disc th) {f l st} (h : th.pc = .getQ f l st) :
+    th.slots = 0 := by
+  obtain ⟨hl, -, -, hrun⟩ := hd
+  have := (hrun (by simp [h])).1
+  simp [Thread.slots, hl, this, h]
+
+/-! ## A termination measure -/
+
+/-- upper bound on the number of steps of one op (not counting the drain loop of `close`, which is
+paid for by the queue length) -/
+def Op.cost : Op → Nat
+  | .req f _ _ => 12 * (f + 1)
+  | .release => 8
+  | .close => 4
+
+def progCost (p : List Op) : Nat := (p.map Op.cost).sum
+
+def Cont.cost : Cont → Nat
+  | .retry f _ _ => 12 * (f + 1)
+  | _ => 0
+
+/-- steps left in the op the program counter is in -/
+def Pc.cost : Pc → Nat
+  | .idle => 0
+  | .getCheck f _ _ => 11 + 12 * f
+  | .getLoad f _ _ => 10 + 12 * f
+  | .getQ f _ _ => 9 + 12 * f
+  | .send _ f _ _ => 8 + 12 * f
+  | .recv _ _ f _ _ => 7 + 12 * f
+  | .putCheck _ k => 6 + k.cost
+  | .putLoad _ k => 5 + k.cost
+  | .putQ _ k => 4 + k.cost
+  | .fullClose _ k => 3 + k.cost
+  | .warnLoad _ k => 2 + k.cost
+  | .discard _ k => 1 + k.cost
+  | .closeCheck => 3
+  | .closeSwap => 2
+  | .drain => 1
+  | .drainClose _ => 2
+
+def Thread.cost (th : Thread) : Nat :=
+  if th.pc = .idle then progCost th.prog else th.pc.cost + progCost th.prog.tail
+
+@[simp] theorem progCost_cons (op : Op) (p : List Op) : progCost (op :: p) = op.cost + progCost p := by
+  simp [progCost]
+
+theorem finish_cost (th : Thread) (r : Res) : (finish th r).cost = progCost th.prog.tail := by
+  unfold finish; split <;> simp_all [Thread.cost]
+
+theorem applyCont_cost (th : Thread) (k : Cont) :
+    (applyCont th k).cost ≤ k.cost + progCost th.prog.tail := by
+  cases k <;> simp [applyCont, finish_cost, Cont.cost] <;> simp [Thread.cost, Pc.cost]
+  omega
+
+theorem failPut_cost (th : Thread) (i k r) : (failPut th i k r).cost = progCost th.prog.tail := by
+  cases k <;> simp [failPut, finish_cost]
+
+theorem cost_mk (prog pc resp leaked results sent) :
+    Thread.cost ⟨prog, pc, resp, leaked, results, sent⟩ =
+      if pc = .idle then progCost prog else pc.cost + progCost prog.tail := rfl
+
+/-- every step of a thread strictly decreases `2 * qsize + cost` -/
+theorem tstep_cost (h : tstep cfg tid sh th = some (sh', th')) :
+    2 * sh'.queue.length + th'.cost < 2 * sh.queue.length + th.cost := by
+  tstep_cases th h <;>
+    first
+    | (simp [finish_cost, failPut_cost, cost_mk, Pc.cost, Op.cost, Cont.cost, *] <;> omega)
+    | (refine Nat.lt_of_le_of_lt (Nat.add_le_add_left (applyCont_cost _ _) _) ?_
+       simp [cost_mk, Pc.cost, Cont.cost, *] <;> omega)
+
+/-! ## Finished ops followed by the remaining program = the original program -/
+
+def Thread.script (th : Thread) : List Op := th.results.map Prod.fst ++ th.prog
+
+@[simp] theorem finish_script (th : Thread) (r : Res) : (finish th r).script = th.script := by
+  unfold finish; split <;> simp_all [Thread.script]
+
+@[simp] theorem applyCont_script (th : Thread) (k : Cont) : (applyCont th k).script = th.script := by
+  cases k <;> simp [applyCont] <;> rfl
+
+@[simp] theorem failPut_script (th : Thread) (i k r) : (failPut th i k r).script = th.script := by
+  cases k <;> simp [failPut] <;> rfl
+
+theorem tstep_script (h : tstep cfg tid sh th = some (sh', th')) : th'.script = th.script := by
+  tstep_cases th h <;> first | rfl | (simp <;> rfl)
+
+/-! ## Results follow the script -/
+
+/-- the scripted outcome of the last attempt, as far as a continuation remembers it -/
+def Cont.last : Cont → Option Outcome
+  | .retry _ l _ => some l
+  | .fin .ok => some .ok
+  | .fin .failed => some .fail
+  | _ => none
+
+/-- the scripted outcome of the last attempt of the request a program counter is in -/
+def Pc.last : Pc → Option Outcome
+  | .getCheck _ l _ | .getLoad _ l _ | .getQ _ l _ | .send _ _ l _ | .recv _ _ _ l _ => some l
+  | .putCheck _ k | .putLoad _ k | .putQ _ k | .fullClose _ k | .warnLoad _ k | .discard _ k => k.last
+  | _ => none
+
+@[simp] theorem Pc.last_idle : Pc.idle.last = none := rfl
+@[simp] theorem Pc.last_getCheck {f l s} : (Pc.getCheck f l s).last = some l := rfl
+@[simp] theorem Pc.last_getLoad {f l s} : (Pc.getLoad f l s).last = some l := rfl
+@[simp] theorem Pc.last_getQ {f l s} : (Pc.getQ f l s).last = some l := rfl
+@[simp] theorem Pc.last_send {c f l s} : (Pc.send c f l s).last = some l := rfl
+@[simp] theorem Pc.last_recv {c t f l s} : (Pc.recv c t f l s).last = some l := rfl
+@[simp] theorem Pc.last_putCheck {i k} : (Pc.putCheck i k).last = k.last := rfl
+@[simp] theorem Pc.last_putLoad {i k} : (Pc.putLoad i k).last = k.last := rfl
+@[simp] theorem Pc.last_putQ {i k} : (Pc.putQ i k).last = k.last := rfl
+@[simp] theorem Pc.last_fullClose {i k} : (Pc.fullClose i k).last = k.last := rfl
+@[simp] theorem Pc.last_warnLoad {i k} : (Pc.warnLoad i k).last = k.last := rfl
+@[simp] theorem Pc.last_discard {i k} : (Pc.discard i k).last = k.last := rfl
+@[simp] theorem Pc.last_closeCheck : Pc.closeCheck.last = none := rfl
+@[simp] theorem Pc.last_closeSwap : Pc.closeSwap.last = none := rfl
+@[simp] theorem Pc.last_drain : Pc.drain.last = none := rfl
+@[simp] theorem Pc.last_drainClose {x} : (Pc.drainClose x).last = none := rfl
+@[simp] theorem Cont.last_retry {f l s} : (Cont.retry f l s).last = some l := rfl
+@[simp] theorem Cont.last_fin_ok : (Cont.fin .ok).last = some .ok := rfl
+@[simp] theorem Cont.last_fin_failed : (Cont.fin .failed).last = some .fail := rfl
+@[simp] theorem Cont.last_fin_wrongResp : (Cont.fin .wrongResp).last = none := rfl
+@[simp] theorem Cont.last_rel : Cont.rel.last = none := rfl
+
+/-- the outcome the program counter carries is the one scripted in the running `req` op -/
+def lastOK (th : Thread) : Prop :=
+  ∀ l, th.pc.last = some l → ∃ f st rest, th.prog = .req f l st :: rest
+
+@[simp] theorem finish_lastOK (th : Thread) (r : Res) : lastOK (finish th r) := by
+  simp [lastOK]
+
+@[simp] theorem failPut_lastOK (th : Thread) (i k r) : lastOK (failPut th i k r) := by
+  simp [lastOK]
+
+theorem applyCont_lastOK {th : Thread} {k : Cont}
+    (h : ∀ l, k.last = some l → ∃ f st rest, th.prog = .req f l st :: rest) :
+    lastOK (applyCont th k) := by
+  cases k <;> simp [applyCont, lastOK] <;> simpa using h
+
+theorem tstep_lastOK (h : tstep cfg tid sh th = some (sh', th')) (hl : lastOK th) : lastOK th' := by
+  tstep_cases th h <;>
+    first
+    | exact finish_lastOK ..
+    | exact failPut_lastOK ..
+    | (apply applyCont_lastOK; simpa [lastOK] using hl)
+    | (simp [lastOK] at hl ⊢; try exact hl)
+
+theorem finish_results_new {th : Thread} {r : Res} {p} (hp : p ∈ (finish th r).results) :
+    p ∈ th.results ∨ (p.2 = r ∧ ∃ rest, th.prog = p.1 :: rest) := by
+  unfold finish at hp; split at hp <;> simp_all; grind
+
+theorem applyCont_results_new {th : Thread} {k : Cont} {p} (hp : p ∈ (applyCont th k).results) :
+    p ∈ th.results ∨ ((k = .fin p.2 ∨ (k = .rel ∧ p.2 = .ok)) ∧ ∃ rest, th.prog = p.1 :: rest) := by
+  cases k with
+  | fin r => rcases finish_results_new (by simpa [applyCont] using hp) with h | ⟨h1, h2⟩
+             · exact Or.inl h
+             · exact Or.inr ⟨Or.inl (by rw [h1]), h2⟩
+  | rel => rcases finish_results_new (by simpa [applyCont] using hp) with h | ⟨h1, h2⟩
+           · exact Or.inl h
+           · exact Or.inr ⟨Or.inr ⟨rfl, h1⟩, h2⟩
+  | retry f l st => exact Or.inl (by simpa [applyCont] using hp)
+
+/-- what a result says about the op it belongs to and about the configuration -/
+def Scripted (cfg : Cfg) (sh : Shared) (p : Op × Res) : Prop :=
+  (p.2 = .closedPool → sh.poolRef = none ∧ p.1.kind = 0) ∧
+  (p.2 = .emptyPool → cfg.block = true ∧ cfg.timeout = true ∧ p.1.kind = 0) ∧
+  (p.2 = .failed → ∃ f st, p.1 = .req f .fail st) ∧
+  (p.2 = .ok → ∀ f l st, p.1 = .req f l st → l = .ok)
+
+theorem scripted_of_finish {th : Thread} {r : Res} {p} (hmem : p ∈ (finish th r).results)
+    (hS : ∀ op rest, th.prog = op :: rest → Scripted cfg sh (op, r)) :
+    p ∈ th.results ∨ Scripted cfg sh p := by
+  rcases finish_results_new hmem with h | ⟨h1, rest, h2⟩
+  · exact Or.inl h
+  · right
+    have := hS _ _ h2
+    rw [← h1] at this
+    exact this
+
+theorem scripted_of_applyCont {th : Thread} {k : Cont} {p} (hmem : p ∈ (applyCont th k).results)
+    (hS : ∀ op rest, th.prog = op :: rest →
+      (∀ r, k = .fin r → Scripted cfg sh (op, r)) ∧ (k = .rel → Scripted cfg sh (op, .ok))) :
+    p ∈ th.results ∨ Scripted cfg sh p := by
+  rcases applyCont_results_new hmem with h | ⟨h1, rest, h2⟩
+  · exact Or.inl h
+  · right
+    have := hS _ _ h2
+    rcases h1 with h1 | ⟨h1, h3⟩
+    · exact this.1 _ h1
+    · have h4 := this.2 h1
+      rw [← h3] at h4
+      exact h4
+
+theorem scripted_of_failPut {th : Thread} {i k r p} (hmem : p ∈ (failPut th i k r).results)
+    (hr : r = .fullPool ∨ r = .internalErr) : p ∈ th.results ∨ Scripted cfg sh p := by
+  rcases failPut_results_mem hmem with h | h
+  · exact Or.inl h
+  · right
+    rcases hr with rfl | rfl <;> simp [Scripted, h]
+
+theorem tstep_results_scripted (h : tstep cfg tid sh th = some (sh', th')) (hr : recvOK sh th)
+    (hk : contOK th) (hp : progOK th) (hl : lastOK th) :
+    ∀ p ∈ th'.results, p ∈ th.results ∨ Scripted cfg sh p := by
+  intro p hmem
+  tstep_cases th h <;>
+    first
+    | exact Or.inl hmem
+    | exact scripted_of_failPut hmem (by simp)
+    | (refine scripted_of_finish hmem ?_
+       intro op rest hprog
+       simp [progOK, lastOK, recvOK, contOK, -Bool.forall_bool, -Bool.exists_bool] at hr hk hp hl hprog
+       simp [Scripted, -Bool.forall_bool, -Bool.exists_bool] <;> grind [Op.kind, Cont.last])
+    | (refine scripted_of_applyCont hmem ?_
+       intro op rest hprog
+       simp [progOK, lastOK, recvOK, contOK, -Bool.forall_bool, -Bool.exists_bool] at hr hk hp hl hprog
+       simp [Scripted, -Bool.forall_bool, -Bool.exists_bool]
+       cases ‹Cont› <;> simp_all [-Bool.forall_bool, -Bool.exists_bool] <;> grind [Op.kind, Cont.last])
+    | (refine Or.imp_left (fun h => by simpa using h) (scripted_of_finish hmem ?_)
+       intro op rest hprog
+       simp [progOK, lastOK, recvOK, contOK, -Bool.forall_bool, -Bool.exists_bool] at hr hk hp hl hprog
+       simp [Scripted, -Bool.forall_bool, -Bool.exists_bool] <;> grind [Op.kind, Cont.last])
+
 end U3.PoolConc
